@@ -177,6 +177,7 @@ type Gen struct {
 	useSets     map[string]bool
 	shadowPool  []string
 	familyDone  bool
+	qualDone    bool
 }
 
 func swarmOpts(r *common.Rng) GenOpts {
@@ -1215,6 +1216,11 @@ func (g *Gen) oneItem() {
 		}
 		return
 	}
+	if g.o.Shadow && g.o.PkgInfo && !g.qualDone && g.r.Chance(1, 5) {
+		g.qualDone = true
+		g.itemQualifiedVsField()
+		return
+	}
 	switch {
 	case g.o.AndHeavy && n < 14:
 		g.itemTypeGroup()
@@ -1540,6 +1546,8 @@ func fileName(style int, stem string, idx int) string {
 		return fmt.Sprintf("%s-%d_x.fo", strings.ToUpper(stem), idx)
 	case 5:
 		return fmt.Sprintf("%s%d.fo.fo", stem, idx)
+	case 6:
+		return fmt.Sprintf("d%d/util.fo", idx) // the same base name in different directories
 	}
 	return fmt.Sprintf("%s%d.fo", stem, idx)
 }
@@ -1859,5 +1867,28 @@ func (g *Gen) itemGenericNesting() {
 		g.use(boxItem)
 		g.use(optItem)
 		g.push("let", name, "let "+name+" (b: "+box+"<"+base+">) =\n  b."+def+"\n\n")
+	}
+}
+
+// itemQualifiedVsField is a schema: a package_info block with a function, a record with a field of the same name as
+// that function, and a definition whose parameter has the same name as the package and the record as its type:
+// "conf.Level" inside it is a field access on the parameter, whatever packages happen to be loaded. The
+// package_info block is unrelated to that definition (it is not referenced by it).
+func (g *Gen) itemQualifiedVsField() {
+	k := g.fresh("Q")
+	pkg, fn, rec := "conf"+k, "Level"+k, "Cfg"+k
+	g.push("pinfo", pkg, "package_info "+pkg+" =\n  let "+fn+": ()->int\n  let Other"+k+": int->string\n\n")
+	recItem := len(g.items)
+	g.declSets[fn+","+"Name"+k] = true
+	g.push("type", rec, "type "+rec+" = {"+fn+": string; Name"+k+": int}\n\n")
+	{
+		name := g.fresh("useQ")
+		g.use(recItem)
+		g.push("let", name, "let "+name+" ("+pkg+": "+rec+") =\n  "+pkg+"."+fn+"\n\n")
+	}
+	{
+		name := g.fresh("useQ")
+		g.use(recItem)
+		g.push("let", name, "let "+name+" (r: "+rec+") =\n  let "+pkg+" = r\n  ("+pkg+"."+fn+", "+pkg+".Name"+k+")\n\n")
 	}
 }
